@@ -87,6 +87,30 @@ class _Shadow:
         self.st.ExperimentShadowDirectory.temporaryShadow = self.orig
 
 
+_RUN_DIR = None      # per-run scratch parent (set in workers); removed by run() whatever happens to the workers
+
+
+def _scratch(prefix='c18-'):
+    """Like verif.gen.pkg.scratch_dir, but inside the per-run scratch parent when there is one."""
+    import contextlib
+    import tempfile
+    from verif.gen.pkg import scratch_root
+
+    @contextlib.contextmanager
+    def cm():
+        d = tempfile.mkdtemp(prefix=prefix, dir=_RUN_DIR or scratch_root())
+        cwd = os.getcwd()
+        try:
+            yield d
+        finally:
+            try:
+                os.chdir(cwd)
+            except OSError:
+                os.chdir('/')
+            shutil.rmtree(d, ignore_errors=True)
+    return cm()
+
+
 MOAT = ('m',) * 6
 
 
@@ -255,10 +279,9 @@ def run_job_case(col, case):
     """case: {'part': J|R|C, 'refs': [...], 'archive': [members]|None, 'compress': ''|'gz', 'via': data|producer|abs}"""
     import experiment.model.data
     import experiment.model.storage
-    from verif.gen.pkg import scratch_dir
     part = case['part']
     col.evaluated()
-    with scratch_dir('c18-') as TOP:
+    with _scratch() as TOP:
         S = _moat(TOP)
         abs_dir = os.path.join(S, 'victim')
         _write(os.path.join(abs_dir, 'keep'), 'victim-keep\n')
@@ -333,7 +356,7 @@ class _Graph:
             import experiment.model.data
             import experiment.model.storage
             from verif.gen.pkg import scratch_root
-            d = tempfile.mkdtemp(prefix='c18-g-', dir=scratch_root())
+            d = tempfile.mkdtemp(prefix='c18-g-', dir=_RUN_DIR or scratch_root())
             cls.holder = d
             atexit.register(shutil.rmtree, d, True)
             try:
@@ -413,10 +436,9 @@ def run_manifest_case(col, case):
     import yaml
     import experiment.model.data
     import experiment.model.storage
-    from verif.gen.pkg import scratch_dir
     part = case['part']
     col.evaluated()
-    with scratch_dir('c18-') as TOP:
+    with _scratch() as TOP:
         S = _moat(TOP)
         rel = os.path.relpath(S, TOP)
         abs_dir = os.path.join(S, 'victim')
@@ -519,7 +541,8 @@ def manifest_cases(thorough):
 
 
 def worker_job(col, item, tier, seed):
-    lo, hi, known = item
+    global _RUN_DIR
+    lo, hi, known, _RUN_DIR = item
     col.__dict__['_c18_seen'] = set(known)
     cases = list(job_cases(tier == 'thorough'))[lo:hi]
     for c in cases:
@@ -529,7 +552,8 @@ def worker_job(col, item, tier, seed):
 
 
 def worker_manifest(col, item, tier, seed):
-    lo, hi, known = item
+    global _RUN_DIR
+    lo, hi, known, _RUN_DIR = item
     col.__dict__['_c18_seen'] = set(known)
     cases = list(manifest_cases(tier == 'thorough'))[lo:hi]
     for c in cases:
@@ -539,7 +563,8 @@ def worker_manifest(col, item, tier, seed):
 
 
 def worker_stageref(col, item, tier, seed):
-    n, lo, hi, step, offset, known = item
+    global _RUN_DIR
+    n, lo, hi, step, offset, known, _RUN_DIR = item
     col.__dict__['_c18_seen'] = set(known)
     graph, base = _Graph.get()
     try:
@@ -572,27 +597,36 @@ def _compress(ctx):
     ctx.n_failures = len(ctx.failures)
 
 
-def _pmap_batched(ctx, fn, items, first=8, later=48):
+def _pmap_batched(ctx, fn, items, run_dir, first=8, later=48):
     """Work items are run in batches; every batch is told which failure classes already have a representative, so
     that the thousands of cases failing for an already recorded reason are only counted (outcomes), not listed."""
     pos = 0
     size = first
     while pos < len(items):
         known = sorted(f['sig'] for f in ctx.failures)
-        ctx.pmap('verif.props.c18', fn, [it + (known,) for it in items[pos:pos + size]])
+        ctx.pmap('verif.props.c18', fn, [it + (known, run_dir) for it in items[pos:pos + size]])
         _compress(ctx)
         pos += size
         size = later
 
 
 def run(ctx):
+    global _RUN_DIR
+    with _scratch('c18-run-') as run_dir:
+        try:
+            _run(ctx, run_dir)
+        finally:
+            _RUN_DIR = None
+
+
+def _run(ctx, run_dir):
     thorough = ctx.thorough
     n_job = sum(1 for _ in job_cases(thorough))
     ctx.count('job_stagein_cases', n_job)
-    _pmap_batched(ctx, 'worker_job', _chunks(n_job, 40))
+    _pmap_batched(ctx, 'worker_job', _chunks(n_job, 40), run_dir)
     n_man = sum(1 for _ in manifest_cases(thorough))
     ctx.count('manifest_cases', n_man)
-    _pmap_batched(ctx, 'worker_manifest', _chunks(n_man, 16))
+    _pmap_batched(ctx, 'worker_manifest', _chunks(n_man, 16), run_dir)
     items = []
     n_s = 0
     for n in (1, 2):
@@ -610,7 +644,7 @@ def run(ctx):
         items += [(3, lo, hi, QUICK_SLICES, ctx.seed % QUICK_SLICES) for lo, hi in _chunks(per, 512)]
         ctx.count('three_member_slice_size', per)
     ctx.count('stagereference_cases', n_s)
-    _pmap_batched(ctx, 'worker_stageref', items)
+    _pmap_batched(ctx, 'worker_stageref', items, run_dir)
     ctx.sample({'part': 'S', 'archive': G.archive_by_index(2, 1234)})
     for f in ctx.failures:
         f['observed']['failing_cases_in_class'] = ctx.outcomes.get('FAIL:' + f['sig'], 0)
